@@ -555,7 +555,7 @@ def cold_custom(ctx, seed, tier, shard, nshards, n):
 SERVICE_CHECKPOINTS = [150, 1100, 4200, 8500, 17000, 33500, 66500]  # just past 128, 1024, 4096, 8192, ... : the capacities bounded tables have
 
 
-def run_service(spec, tag):
+def run_service(spec, tag, judge=True):
     here = os.path.dirname(os.path.dirname(os.path.dirname(os.path.abspath(__file__))))
     work = os.path.join(here, ".work", f"c14-service-{os.getpid()}-{tag}")
     os.makedirs(work, exist_ok=True)
@@ -573,7 +573,7 @@ def run_service(spec, tag):
     if p.returncode != 0:
         raise HarnessError(f"service child failed: {p.stderr[-2000:]}")
     out = json.loads(p.stdout)
-    if out["mismatches"]:
+    if out["mismatches"] and judge:
         m = out["mismatches"][0]
         job = spec["recurring"][m["index"]]
         raise Violation(f"service:recurring-call-changed:{job['op']}",
